@@ -177,3 +177,13 @@ def run(ctx, rep):
             if k not in want:
                 rep.add(Obligation("LEDGER-SELECTORS", p["id"], "case `%s`" % k, "-", VIOLATION,
                                    detail="reader has a new case %s -> %s that is not in the ledger" % (k, r[k])))
+
+    # frozen reader records, one per released bitstream version
+    from ..wiresig import run_wiresig
+    rep.rules_text.append(
+        "LEDGER-WIRESIG: for every reader of rules/wiresig.json and every released bitstream version "
+        "(1.1 .. 2.3) the reader's record - the set of type-directed token sequences along its success paths "
+        "with the version gates evaluated for that version - equals the frozen one (a change applied to "
+        "writer and reader alike still changes the reader's record)")
+    n = run_wiresig(ctx, rep, "LEDGER-WIRESIG", None, ledger=True)
+    rep.floor("LEDGER-WIRESIG reader records (pairs x versions)", n, tab.get("wiresig_floor", 250))
